@@ -524,3 +524,70 @@ Lemma form_iface_lemma data form :
   parse_query data = Some form ->
   form_unmarshal data (TIface true) = Ok (RValues form) /\ form_unmarshal data (TIface false) = Err.
 Proof. intros H. unfold form_unmarshal, form_unmarshal_gen. rewrite H. split; reflexivity. Qed.
+
+(* ---- struct level: a successful decode returns a value of the destination's type ----
+   same field names, tags and visibility in the same order; a leaf is untouched or replaced
+   by one of its kind and width; a slice is untouched or holds elements of its element type;
+   an array keeps its length; nested structs recursively. *)
+Inductive ftype_rel : fval -> fval -> Prop :=
+| tr_leaf a b : a = b \/ leaf_kind_eq a b = true -> ftype_rel (FLeaf a) (FLeaf b)
+| tr_slice p es es' :
+    es' = es \/ Forall (fun e => leaf_kind_eq p e = true) es' -> ftype_rel (FSlice p es) (FSlice p es')
+| tr_array p es es' : length es' = length es -> ftype_rel (FArray p es) (FArray p es')
+| tr_struct fs fs' : fields_rel fs fs' -> ftype_rel (FStruct fs) (FStruct fs')
+with fields_rel : fields -> fields -> Prop :=
+| fr_nil : fields_rel FNil FNil
+| fr_cons n t e v v' r r' :
+    ftype_rel v v' -> fields_rel r r' -> fields_rel (FCons n t e v r) (FCons n t e v' r').
+
+Lemma fields_rel_refl fs : fields_rel fs fs.
+Proof.
+  induction fs as [|name tag e v rest IHsub IHrest] using fields_induction; [constructor|].
+  constructor; [|exact IHrest].
+  destruct v; constructor; auto.
+Qed.
+
+Lemma ftype_rel_refl v : ftype_rel v v.
+Proof. destruct v; constructor; auto. apply fields_rel_refl. Qed.
+
+Lemma set_field_type v vals v' : set_field_gen (Ok []) v vals = Ok v' -> ftype_rel v v'.
+Proof.
+  destruct vals as [|s r]; [discriminate|]. destruct v; cbn [set_field_gen].
+  - destruct (set_with_proper_type l s) as [l'| |] eqn:E; cbn [omap]; intros H; inversion H; subst.
+    constructor. right. eapply set_wpt_kind. exact E.
+  - destruct (set_slice proto (s :: r)) as [es| |] eqn:E; cbn [omap]; intros H; inversion H; subst.
+    constructor. right. apply (set_slice_kinds _ _ _ E).
+  - destruct (set_array_gen (Ok []) elems (s :: r)) as [es| |] eqn:E; cbn [omap]; intros H; inversion H; subst.
+    constructor. apply (set_array_length _ _ _ E).
+  - discriminate.
+Qed.
+
+Lemma map_fields_type fs : forall form fs', map_fields form fs = Ok fs' -> fields_rel fs fs'.
+Proof.
+  unfold map_fields.
+  induction fs as [|name tag e v rest IHsub IHrest] using fields_induction; intros form fs' H.
+  - inversion H. constructor.
+  - assert (Hcont : forall v', ftype_rel v v' ->
+              omap (FCons name tag e v') (map_fields_gen (Ok []) form rest) = Ok fs' ->
+              fields_rel (FCons name tag e v rest) fs').
+    { intros v' Hv Hm. destruct (map_fields_gen (Ok []) form rest) as [r'| |] eqn:E; cbn [omap] in Hm;
+        inversion Hm; subst. constructor; [exact Hv | eapply IHrest; exact E]. }
+    destruct e; [|cbn [map_fields_gen negb] in H; eapply Hcont; [apply ftype_rel_refl | exact H]].
+    destruct (recurses tag v) eqn:R.
+    + apply recurses_true in R as [-> [sub ->]]. cbn [map_fields_gen negb] in H.
+      destruct (map_fields_gen (Ok []) form sub) as [sub'| |] eqn:E; cbn [obind] in H; try discriminate.
+      eapply Hcont; [|exact H]. constructor. eapply (IHsub sub eq_refl). exact E.
+    + rewrite map_fields_plain in H by exact R. cbn zeta in H.
+      destruct (vget form (eff_name name tag)) as [vals|].
+      * destruct (set_field_gen (Ok []) v vals) as [v'| |] eqn:E; cbn [obind] in H; try discriminate.
+        eapply Hcont; [|exact H]. eapply set_field_type. exact E.
+      * eapply Hcont; [apply ftype_rel_refl | exact H].
+Qed.
+
+Lemma form_decode_keeps_type_lemma data fs fs' :
+  form_unmarshal data (TStruct fs) = Ok (RStruct fs') -> fields_rel fs fs'.
+Proof.
+  unfold form_unmarshal, form_unmarshal_gen. destruct (parse_query data) as [form|]; [|discriminate].
+  destruct (map_fields_gen (Ok []) form fs) as [r| |] eqn:E; cbn [omap]; intros H; inversion H; subst.
+  eapply map_fields_type. exact E.
+Qed.
